@@ -76,12 +76,16 @@ class MQTTTransport(Transport):
                 qos = int(topic_levels[-2])
             except ValueError:
                 qos = 0
-            tasks.append(self._subscribe(topic, qos))
+            tasks.append(asyncio.ensure_future(self._subscribe(topic, qos)))
 
         try:
             await asyncio.gather(*tasks)
         except BaseException:
-            # Do not leave the receive task and the broker connection behind.
+            # Do not leave the other subscriptions, the receive task and the
+            # broker connection behind.
+            for task in tasks:
+                task.cancel()
+            await asyncio.gather(*tasks, return_exceptions=True)
             await self._disconnect()
             raise
 
